@@ -435,9 +435,42 @@ func c11(r *Run) {
 			return false, false
 		}
 		starts := edgesEstablishing(disp, closeMsg)
-		r.mustPass("C11.R6:close-closes-eventfd", "on the close message the wake-up descriptor is closed", disp, nil, starts, sysClose(".wop.FD"), nil, nil, "close(wop.FD) on every path")
-		r.mustPass("C11.R6:close-closes-epollfd", "on the close message the epoll descriptor is closed", disp, nil, starts, sysClose("p.fd"), nil, nil, "close(p.fd) on every path")
-		r.mustPass("C11.R6:close-releases-token", "the wake-up slot's token is released on the close path", disp, nil, starts, func(i ssa.Instruction) bool { return isCall(i, ro.opDone) }, nil, nil, "done() on every path")
+		// the close message may be decoded by a private helper of the dispatch function that reports it as its result
+		// (edgesEstablishing looks through such a helper): what the helper did on its own close edge counts
+		var helper *ssa.Function
+		var helperStarts []Start
+		forEachIns(disp, func(i ssa.Instruction) {
+			ifi, ok := i.(*ssa.If)
+			if !ok {
+				return
+			}
+			v, _ := stripNot(ifi.Cond, true)
+			if _, direct := closeMsg(v); direct {
+				return
+			}
+			if inner, ok := boolWrapperBody(v); ok {
+				iv, _ := stripNot(inner, true)
+				if _, is := closeMsg(iv); is {
+					helper = v.(*ssa.Call).Call.StaticCallee()
+					helperStarts = edgesEstablishing(helper, closeMsg)
+				}
+			}
+		})
+		onClose := func(key, rule string, target func(ssa.Instruction) bool, okDetail string) {
+			if helper != nil && len(helperStarts) > 0 {
+				ss := &Search{Fn: helper, Stop: target}
+				wit := ss.Find(helperStarts, nil, true)
+				r.Visited += ss.Visited
+				if wit == nil {
+					r.obW(key, rule, helper, nil, nil, okDetail+" (in the helper "+w.FnName(helper)+" that decodes the message)")
+					return
+				}
+			}
+			r.mustPass(key, rule, disp, nil, starts, target, nil, nil, okDetail)
+		}
+		onClose("C11.R6:close-closes-eventfd", "on the close message the wake-up descriptor is closed", sysClose(".wop.FD"), "close(wop.FD) on every path")
+		onClose("C11.R6:close-closes-epollfd", "on the close message the epoll descriptor is closed", sysClose("p.fd"), "close(p.fd) on every path")
+		onClose("C11.R6:close-releases-token", "the wake-up slot's token is released on the close path", func(i ssa.Instruction) bool { return isCall(i, ro.opDone) }, "done() on every path")
 		// returns true, without dispatching further events
 		ss := &Search{Fn: disp}
 		bad := false
@@ -518,6 +551,41 @@ func c11(r *Run) {
 					return true
 				}
 				return isStoreToField(i, "pollArgs", "events") || isStoreToField(i, "defaultPoll", "events")
+			}
+			// the batch handed to the dispatch function is events[:n]: only where n > 0 was established (EpollWait reports -1
+			// together with EINTR, which the loop deliberately tolerates)
+			for _, d := range findIns(waitFn, isDispatch) {
+				var batch *ssa.Slice
+				for _, a := range callCommon(d).Args {
+					if sl, ok := a.(*ssa.Slice); ok && sl.High != nil {
+						batch = sl
+					}
+				}
+				if batch == nil {
+					continue
+				}
+				n := batch.High
+				isN := func(v ssa.Value) bool { return v == n }
+				pos := anyAtom(
+					cmpAtom(isN, isConstEq(0), func(op token.Token) (bool, bool) {
+						switch op {
+						case token.GTR:
+							return true, true
+						case token.LEQ:
+							return false, true
+						}
+						return false, false
+					}),
+					cmpAtom(isN, isConstEq(1), func(op token.Token) (bool, bool) {
+						switch op {
+						case token.GEQ:
+							return true, true
+						case token.LSS:
+							return false, true
+						}
+						return false, false
+					}))
+				r.guarded("C11.R6:batch-only-when-events-were-returned", "the wait loop slices the event array by the count EpollWait returned only where that count was seen to be positive: the count is -1 when the wait was interrupted (EINTR is tolerated on purpose), and events[:-1] panics the poller goroutine - every descriptor on it goes silent", waitFn, d, pos, nil, "guarded by n > 0")
 			}
 			waits := findIns(waitFn, isEpollWait)
 			if len(waits) == 0 || len(findIns(waitFn, isDispatch)) == 0 {
